@@ -483,9 +483,13 @@ func FuzzParsers(f *testing.F) {
 	targets := []string{"mapvalue", "stringfunc", "tmplfunc", "preprocessor", "decodeuri", "rawheader", "utilheader", "xpath", "jsonpath", "header"}
 	pools := [][]string{{"source.arr[next].id", "source.arr[-1]", "source.arr[9999]"}, stringFuncs, funcExprs, funcExprs, uripostLines, rawHeaders, utilHeaders,
 		append(append([]string{}, nodesetXpaths...), brokenXpaths...), hostileJsonpaths, hostileHeaderExprs}
-	n := addCorpus(f, "FuzzParsers", func(b []byte) {
-		for i := range targets {
-			f.Add(b, uint8(i), uint8(0))
+	// corpus files are named <parser>-NNN
+	n := addCorpusNamed(f, "FuzzParsers", func(file string, b []byte) {
+		for i, tg := range targets {
+			if strings.HasPrefix(file, tg+"-") {
+				f.Add(b, uint8(i), uint8(0))
+				f.Add(b, uint8(i), uint8(9))
+			}
 		}
 	})
 	if n == 0 {
